@@ -28,12 +28,34 @@ var c11EncFieldLevel = []string{"name", "ratio", "score", "tags"}
 
 func (r *e1Run) encOn() bool { return r.p.cfg("enc", 0) != 0 }
 
+// encFieldList: the field-level encryption list of the run: a seeded subset (>=1 field) of the
+// candidates in a seeded order (the order a user writes them in is arbitrary).
+func (r *e1Run) encFieldList() []string {
+	sel := r.p.cfg("encsel", 0)
+	var out []string
+	for i, f := range c11EncFieldLevel {
+		if sel>>uint(i)&1 == 1 {
+			out = append(out, f)
+		}
+	}
+	if len(out) == 0 {
+		out = append(out, c11EncFieldLevel...)
+	}
+	// seeded permutation
+	rot := r.p.cfg("encrot", 0)
+	for k := 0; k < rot; k++ {
+		i, j := mod(k*7+rot, len(out)), mod(k*3+1, len(out))
+		out[i], out[j] = out[j], out[i]
+	}
+	return out
+}
+
 func (r *e1Run) isEncField(f string) bool {
 	switch r.p.cfg("enc", 0) {
 	case 1:
 		return true
 	case 2:
-		for _, x := range c11EncFieldLevel {
+		for _, x := range r.encFieldList() {
 			if x == f {
 				return true
 			}
@@ -47,7 +69,7 @@ func (r *e1Run) encArgs(slot int) string {
 	case 1:
 		return ", encrypt: true"
 	case 2:
-		return ", encryptFields: [" + strings.Join(c11EncFieldLevel, ", ") + "]"
+		return ", encryptFields: [" + strings.Join(r.encFieldList(), ", ") + "]"
 	}
 	return ""
 }
